@@ -53,6 +53,11 @@ def funcs(sp, rng):
     yield 'LpNorm(inf)', lambda: S.LpNorm(sp, np.inf), ()
     yield 'LpNorm(1)', lambda: S.LpNorm(sp, 1), ()
     yield 'LpNorm(2)', lambda: S.LpNorm(sp, 2), ()
+    # exponents without closed-form proximal / gradient: values and conjugates only (conjugate exponent 3 <-> 1.5)
+    yield 'LpNorm(1.5)', lambda: S.LpNorm(sp, 1.5), ('nograd',)
+    yield 'LpNorm(3)', lambda: S.LpNorm(sp, 3), ('nograd',)
+    yield 'IndicatorLpUnitBall(1.5)', lambda: S.IndicatorLpUnitBall(sp, 1.5), ('indicator', 'nograd')
+    yield 'IndicatorLpUnitBall(3)', lambda: S.IndicatorLpUnitBall(sp, 3), ('indicator', 'nograd')
     yield 'IndicatorLpUnitBall(1)', lambda: S.IndicatorLpUnitBall(sp, 1), ('indicator',)
     yield 'IndicatorLpUnitBall(2)', lambda: S.IndicatorLpUnitBall(sp, 2), ('indicator',)
     yield 'IndicatorLpUnitBall(inf)', lambda: S.IndicatorLpUnitBall(sp, np.inf), ('indicator',)
